@@ -185,6 +185,12 @@ def run(repo, chk):
         def global_arrays(construct):
             return 'C04.A10' if construct.startswith(('make_global', 'add_global_array')) else None
         c13.run(repo, Remap(chk, {'C13.B3': global_arrays}))
+        # the entry point's array parameter: its length word is $argc minus the number of scalar parameters wherever the
+        # array stands in the parameter list (too large a length lets guarded accesses run past the argument table)
+        chk.rule('C04.A11', 'entry array parameter: length = $argc - number of scalar parameters, origin = its own argument table '
+                            '(interpreted for the array at every position) - shared with C01.A1')
+        from . import c01 as _c01
+        _c01.entry_binding(repo, Remap(chk, {'C01.A1': lambda c: None if c.endswith('::entry specialisation') else 'C04.A11'}), gf)
 
     # ---------------- A4 scale agreement ---------------------------------------------------
     _scale(repo, chk, gf)
